@@ -346,7 +346,7 @@ impl<'a, L> Engine<'a, L> {
                     json_syntax::json!({
                         "@list": [],
                     })
-                } else if &id[..2] != "_:" {
+                } else if !id.starts_with("_:") {
                     // any other IRI, do not even check list_nodes or compound_literals
                     json_syntax::json!({
                         "@id": JsonValue::from(id.as_ref()),
